@@ -233,7 +233,15 @@ Definition after_for (l : list stmt) : list stmt := List.tl (from_for l).
 
 Definition cem_outer : list stmt := for_body (f_body gen_cemgil).
 Definition cem_inner : list stmt := for_body cem_outer.
-Definition F fexp := exec beat_sigs beat_ext fexp.
+(* The callees: any [ext] that answers `validate` as the model does and `_get_reference_beat_variations(r)` with the
+   tuple of arrays [vars_of r]. The instance used by the property theorems is [beat_ext] (vars_of = Beat.variations);
+   [prog_ext] below answers with the TRANSLATED variations program instead. *)
+Section Callees.
+Variable ext : string -> list bv -> out bv.
+Variable vars_of : list Q -> list (list Q).
+Hypothesis Hval : forall r e, ext "validate"%string [VArrQ r; VArrQ e] = lift_unit (Beat.validate r e).
+Hypothesis Hvars : forall r, ext "_get_reference_beat_variations"%string [VArrQ r] = OK (VTup (map VArrQ (vars_of r))).
+Definition F fexp := exec beat_sigs ext fexp.
 Definition cem_env (var est : list Q) (sg accs acc b bd : bv) : env :=
   [("reference_beats", VArrQ var); ("estimated_beats", VArrQ est); ("cemgil_sigma", sg); ("accuracies", accs);
    ("accuracy", acc); ("beat", b); ("beat_diff", bd)]%string.
@@ -324,28 +332,94 @@ Definition lift_pair (r : res (Q * Q)) : out (list xval) :=
   match r with Ok (a, b) => OK [Fin a; Fin b] | Raise e => EXN e end.
 Lemma zof_S_eq0 n : (Z.of_nat (S n) =? 0)%Z = false. Proof. apply Z.eqb_neq. lia. Qed.
 
-Theorem cemgil_tie : forall fexp ref est sigma py, ~ sigma == 0 ->
-  out_eq (out_floats (run fexp gen_cemgil [VArrQ ref; VArrQ est; VFlt py (Fin sigma)]))
-         (lift_pair (Beat.cemgil (gauss fexp sigma) ref est)).
+(* Beat.cemgil with the metrical variations taken from [vs] *)
+Definition cemgil_on (g : Q -> Q) (vs : list (list Q)) (ref est : list Q) : res (Q * Q) :=
+  bind (Beat.validate ref est) (fun _ =>
+  if Beat.is_nil est || Beat.is_nil ref then Ok (0, 0)
+  else match map (fun v => Beat.cemgil_acc g v est) vs with
+       | a0 :: t => Ok (a0, fold_left Qmax t a0)
+       | [] => Raise IndexError
+       end).
+Theorem cemgil_tie_gen : forall fexp ref est sigma py, ~ sigma == 0 ->
+  out_eq (out_floats (runx ext fexp gen_cemgil [VArrQ ref; VArrQ est; VFlt py (Fin sigma)]))
+         (lift_pair (cemgil_on (gauss fexp sigma) (vars_of ref) ref est)).
 Proof.
-  intros fexp ref est sigma py Hs. unfold run, run_fun, Beat.cemgil. cbn.
+  intros fexp ref est sigma py Hs. unfold runx, run_fun, cemgil_on. cbn. rewrite Hval.
   destruct (Beat.validate ref est) as [[]|e]; cbn; [|reflexivity].
   destruct est as [|e0 et]; [cbn; repeat constructor; reflexivity|].
   cbn [length]. rewrite zof_S_eq0. cbn.
   destruct ref as [|r0 rt]; [cbn; repeat constructor; reflexivity|].
-  cbn [length]. rewrite zof_S_eq0. cbn.
-  destruct (cem_outer_loop fexp e0 et sigma py Hs (Beat.variations (r0 :: rt)) [] (r0 :: rt) VUnbound VUnbound VUnbound)
+  cbn [length]. rewrite zof_S_eq0. cbn. rewrite Hvars. cbn.
+  destruct (cem_outer_loop fexp e0 et sigma py Hs (vars_of (r0 :: rt)) [] (r0 :: rt) VUnbound VUnbound VUnbound)
     as (qs & var' & a & b & bd & E & Hqs).
-  unfold cem_env, cem_outer, accs_v in E. cbn [map app] in E. use_loop E.
-  unfold Beat.variations, leq in Hqs. cbn [map] in Hqs.
-  destruct qs as [|[p1 q1] [|[p2 q2] [|[p3 q3] [|[p4 q4] [|[p5 q5] [|? ?]]]]]]; cbn [map snd] in Hqs;
-    try solve [exfalso; repeat match goal with H : Forall2 _ _ _ |- _ => inversion H; clear H; subst end].
-  cbn. unfold Beat.variations. cbn [map].
-  assert (H1 : q1 == Beat.cemgil_acc (gauss fexp sigma) (r0 :: rt) (e0 :: et)) by (inversion Hqs; assumption).
-  assert (Hqs1 : leq [q2; q3; q4; q5] (map (fun v => Beat.cemgil_acc (gauss fexp sigma) v (e0 :: et))
-      [Beat.odds (Beat.double_beats (r0 :: rt)); Beat.double_beats (r0 :: rt); Beat.evens (r0 :: rt); Beat.odds (r0 :: rt)])) by (inversion Hqs; assumption). constructor; [exact H1|]. constructor; [|constructor].
-  cbn [xeq]. exact (BeatProps.fold_Qmax_leq [q2; q3; q4; q5] _ q1 _ H1 Hqs1).
+  unfold cem_env, cem_outer, accs_v in E. cbn [map app] in E. use_loop E. clear E. cbn.
+  destruct (map (fun v => Beat.cemgil_acc (gauss fexp sigma) v (e0 :: et)) (vars_of (r0 :: rt))) as [|a0 t] eqn:Em.
+  - inversion Hqs as [E0|]. destruct qs; [|discriminate]. cbn. reflexivity.
+  - destruct qs as [|[p1 q1] qs]; [inversion Hqs|]. cbn [map snd fst] in *.
+    assert (H1 : q1 == a0) by (inversion Hqs; assumption). assert (Hr : leq (map snd qs) t) by (inversion Hqs; assumption).
+    cbn. replace (all_fins (map (fun pq : bool * Q => VFlt (fst pq) (Fin (snd pq))) qs)) with (Some (map snd qs)).
+    2:{ clear. induction qs as [|[p q] r IH]; [reflexivity|]. cbn [map all_fins fst snd]. rewrite <- IH. reflexivity. }
+    cbn. constructor; [exact H1|]. constructor; [|constructor]. cbn [xeq]. apply BeatProps.fold_Qmax_leq; assumption.
 Qed.
+End Callees.
+
+Lemma leq_refl l : leq l l. Proof. induction l; constructor; [reflexivity|assumption]. Qed.
+Lemma beat_ext_val r e : beat_ext "validate"%string [VArrQ r; VArrQ e] = lift_unit (Beat.validate r e). Proof. reflexivity. Qed.
+Lemma beat_ext_vars r : beat_ext "_get_reference_beat_variations"%string [VArrQ r] = OK (VTup (map VArrQ (Beat.variations r))). Proof. reflexivity. Qed.
+Theorem cemgil_tie : forall fexp ref est sigma py, ~ sigma == 0 ->
+  out_eq (out_floats (run fexp gen_cemgil [VArrQ ref; VArrQ est; VFlt py (Fin sigma)]))
+         (lift_pair (Beat.cemgil (gauss fexp sigma) ref est)).
+Proof. intros fexp ref est sigma py Hs. exact (cemgil_tie_gen beat_ext Beat.variations beat_ext_val beat_ext_vars fexp ref est sigma py Hs). Qed.
+
+(* ---- the callee `_get_reference_beat_variations` answered by the translated program itself ---- *)
+Fixpoint arrays_of (l : list bv) : list (list Q) := match l with VArrQ a :: t => a :: arrays_of t | _ => [] end.
+Definition vars_prog (fexp : Q -> Q) (r : list Q) : list (list Q) :=
+  match runx beat_ext fexp gen_get_reference_beat_variations [VArrQ r] with OK (VTup l) => arrays_of l | _ => [] end.
+Local Open Scope string_scope.
+Definition prog_ext (fexp : Q -> Q) (f : string) (vs : list bv) : out bv :=
+  if f =? "_get_reference_beat_variations" then runx beat_ext fexp gen_get_reference_beat_variations vs else beat_ext f vs.
+Local Close Scope string_scope.
+Lemma prog_ext_val fexp r e : prog_ext fexp "validate"%string [VArrQ r; VArrQ e] = lift_unit (Beat.validate r e). Proof. reflexivity. Qed.
+Lemma prog_ext_vars fexp r :
+  prog_ext fexp "_get_reference_beat_variations"%string [VArrQ r] = OK (VTup (map VArrQ (vars_prog fexp r))).
+Proof.
+  unfold prog_ext, vars_prog. change ("_get_reference_beat_variations" =? "_get_reference_beat_variations")%string with true. cbv iota.
+  destruct (variations_tie_all beat_ext fexp r) as (v1 & v2 & E & _). rewrite E. reflexivity.
+Qed.
+Lemma vars_prog_leq fexp r : Forall2 leq (vars_prog fexp r) (Beat.variations r).
+Proof. unfold vars_prog. destruct (variations_tie_all beat_ext fexp r) as (v1 & v2 & E & H). rewrite E. exact H. Qed.
+Lemma cemgil_acc_leq g v' v est : (forall a b, a == b -> g a == g b) -> leq v' v ->
+  Beat.cemgil_acc g v' est == Beat.cemgil_acc g v est.
+Proof.
+  intros Hg Hv. unfold Beat.cemgil_acc.
+  assert (Hd : leq (Beat.dists v' est) (Beat.dists v est)).
+  { apply (BeatProps.dists_shl 0).
+    - eapply Forall2_impl; [|exact Hv]. intros a b Hab. cbn beta. rewrite Hab. ring.
+    - clear. induction est; constructor; [ring|assumption]. }
+  rewrite (BeatProps.qsum_leq _ _ (BeatProps.leq_map g _ _ Hg Hd)), (BeatProps.F2_length _ _ _ Hv). reflexivity.
+Qed.
+(* cemgil calling the translated variations program: the model's value, for every np.exp that is a function of the number *)
+Theorem cemgil_tie_prog : forall fexp ref est sigma py, ~ sigma == 0 -> (forall a b, a == b -> fexp a == fexp b) ->
+  out_eq (out_floats (runx (prog_ext fexp) fexp gen_cemgil [VArrQ ref; VArrQ est; VFlt py (Fin sigma)]))
+         (lift_pair (Beat.cemgil (gauss fexp sigma) ref est)).
+Proof.
+  intros fexp ref est sigma py Hs Hf.
+  pose proof (cemgil_tie_gen (prog_ext fexp) (vars_prog fexp) (prog_ext_val fexp) (prog_ext_vars fexp) fexp ref est sigma py Hs) as T.
+  assert (Hg : forall a b, a == b -> gauss fexp sigma a == gauss fexp sigma b).
+  { intros a b Hab. unfold gauss. apply Hf. rewrite Hab. reflexivity. }
+  assert (Hm : leq (map (fun v => Beat.cemgil_acc (gauss fexp sigma) v est) (vars_prog fexp ref))
+                   (map (fun v => Beat.cemgil_acc (gauss fexp sigma) v est) (Beat.variations ref))).
+  { pose proof (vars_prog_leq fexp ref) as Hv. induction Hv; cbn [map]; constructor; [apply cemgil_acc_leq; assumption|assumption]. }
+  unfold cemgil_on in T. unfold Beat.cemgil. destruct (Beat.validate ref est) as [[]|e]; cbn [bind Prelude.bind] in *; [|exact T].
+  destruct (Beat.is_nil est || Beat.is_nil ref); [exact T|].
+  destruct Hm as [|a a' l l' Ha Hl]; [exact T|].
+  destruct (out_floats _) as [xs| |]; cbn [lift_pair out_eq] in *; try contradiction.
+  destruct T as [|x y xs' ys' Hx T']; constructor.
+  - destruct x; cbn [xeq] in *; try contradiction. rewrite Hx. exact Ha.
+  - destruct T' as [|x2 y2 xs2 ys2 Hx2 T2]; constructor; [|exact T2].
+    destruct x2; cbn [xeq] in *; try contradiction. rewrite Hx2. apply BeatProps.fold_Qmax_leq; assumption.
+Qed.
+
 (* the hypothesis of cemgil_tie is satisfiable (the documented default is 0.04) *)
 Example cemgil_sigma_default_nonzero : ~ (4 # 100) == 0. Proof. intros H. discriminate H. Qed.
 
@@ -383,5 +457,7 @@ Proof. vm_compute. reflexivity. Qed.
 Print Assumptions trim_beats_tie.
 Print Assumptions variations_tie.
 Print Assumptions variations_tie_all.
+Print Assumptions cemgil_tie_gen.
 Print Assumptions cemgil_tie.
+Print Assumptions cemgil_tie_prog.
 Print Assumptions beat_sigs_expected.
